@@ -7,7 +7,7 @@
 //   S <json>                                             statistics of this run
 //
 // Value syntax (shared with lean/Driver/Diff.lean): s<hex> string, b<hex> bytes (s-, b- empty), t(v,…) tuple,
-// l(v,…) list, d(k:v,…) dict in insertion order.
+// l(v,…) list, d(k:v,…) dict in insertion order, n None, T/F booleans, i<decimal> int.
 package main
 
 import (
@@ -18,6 +18,7 @@ import (
 	"fmt"
 	"os"
 	"reflect"
+	"strconv"
 	"strings"
 	"sync/atomic"
 	"time"
@@ -89,7 +90,14 @@ func show(v starlark.Value) string {
 		}
 		return "d(" + strings.Join(parts, ",") + ")"
 	case starlark.NoneType:
-		return "none"
+		return "n"
+	case starlark.Bool:
+		if v {
+			return "T"
+		}
+		return "F"
+	case starlark.Int:
+		return "i" + v.String()
 	}
 	return fmt.Sprintf("?%s", v.Type())
 }
@@ -142,6 +150,26 @@ func (p *parser) value() starlark.Value {
 	c := p.s[p.i]
 	p.i++
 	switch c {
+	case 'n':
+		return starlark.None
+	case 'T':
+		return starlark.True
+	case 'F':
+		return starlark.False
+	case 'i':
+		j := p.i
+		if j < len(p.s) && p.s[j] == '-' {
+			j++
+		}
+		for j < len(p.s) && p.s[j] >= '0' && p.s[j] <= '9' {
+			j++
+		}
+		n, err := strconv.ParseInt(p.s[p.i:j], 10, 64)
+		if err != nil {
+			p.fail("int")
+		}
+		p.i = j
+		return starlark.MakeInt64(n)
 	case 's':
 		return starlark.String(p.hexRun())
 	case 'b':
@@ -644,7 +672,11 @@ func envCase(oldEnv, newEnv starlark.Value, sameEncoding bool) {
 	default:
 		ans = "changed " + hx(reason) + " " + showDiff(d)
 	}
-	emitC("diff.env", "env "+se+" "+show(oldEnv)+" "+show(newEnv), ans)
+	oldText := show(oldEnv)
+	if oldEnv == starlark.None {
+		oldText = "none" // no record: the target has never been run
+	}
+	emitC("diff.env", "env "+se+" "+oldText+" "+show(newEnv), ans)
 	stats["env.judged"]++
 	if sameEncoding {
 		// equal encodings decode to equal environments: only meaningful for equal values
